@@ -10,12 +10,15 @@ META = {'claimed': True,
                'leaked, no free without a live block of that size, whole programs (C14_ea/eq/spm_run_no_leak); a double free among equal-sized live blocks is not distinguishable in the proof and is '
                'covered only by the pointer-keyed wrapped allocator + ASan in the correspondence run. Pointer heap and timer queue: refusal <-> NULL/-1 with the heap unchanged and nothing notified '
                '(C14_ptrheap_add_fail_unchanged, C14_tq_add_fail_unchanged), deletions/getptr infallible under the all-refusing oracle with full C13 meaning, per-call block accounting and free '
-               'releasing everything (C14_*_acct). Event registrations (partial): a failing register leaves every library structure as it was, is never invoked and does not block a later '
-               'registration (C14_events_failed_registration_*_partial). Network/netbuf (partial): refused cookie/registration -> NULL and nothing registered; netbuf_write_reserve failure leaves the '
-               'writer unchanged (repaired defect F6, regression theorem); netbuf_read_wait failure leaves the window and view unchanged. 39 theorems. What the models do not carry (which C '
-               'allocation maps to which oracle answer inside mpool/elastic internals, failure inside callbacks, leak-freedom through the whole I/O, HTTP, AWS and key-file stacks, no crash) is '
-               'decided by enumeration on the compiled code: every allocation index of every operation refused once and persistently (wrapped malloc/realloc/strdup/asprintf), documented return value '
-               'checked, retry must succeed, LeakSanitizer + exit-time block accounting per forked case.',
+               "releasing everything (C14_*_acct). Event registrations (partial): a refused register call is modelled with the state the C's unwinding leaves at each refusal point (init done / "
+               'socket list grown / err1 record removed / timer queue created); nothing another call can read has changed except that an empty timer queue may exist, invariants intact, the call is '
+               'never invoked and does not block a later registration, all continuations covered by C04/C05 (C14_events_failed_registration_*_partial); that the C unwinds this way, the '
+               'allocation-to-oracle mapping, retry success and leaks: enumeration only. Network/netbuf (partial): the network_read/accept constructors are model definitions only (decided by the '
+               'allocation-failure exploration); netbuf_write_reserve failure leaves the writer unchanged (repaired defect F6, regression theorem); netbuf_read_wait returns -1 exactly when a needed '
+               'allocation/registration is refused, with view and pending state unchanged (C14_reader_wait_failure_clean). 40 theorems. What the models do not carry (which C allocation maps to which '
+               'oracle answer inside mpool/elastic internals, failure inside callbacks, leak-freedom through the whole I/O, HTTP, AWS and key-file stacks, no crash) is decided by enumeration on the '
+               'compiled code: every allocation index of every operation refused once and persistently (wrapped malloc/realloc/strdup/asprintf), documented return value checked, retry must succeed, '
+               'LeakSanitizer + exit-time block accounting per forked case.',
  'level_note': 'Trusted: Coq kernel; hand-written models bound by differential execution; the correspondence of oracle positions to real allocation sites is by enumeration, not proof; LeakSanitizer '
                'for leak verdicts in the I/O stacks. Print Assumptions: closed under the global context.',
  'trusted_base': ['allocation wrappers (--wrap=malloc,realloc,calloc,strdup,...) in the drivers', 'LeakSanitizer'],
